@@ -340,6 +340,8 @@ func PrintValue(v interface{}) []byte {
 		return nil
 	case errValue:
 		return []byte(x.e.Error())
+	case RendWrite:
+		return []byte(x.S)
 	}
 	rv := reflect.ValueOf(v)
 	for i := 0; i < 2; i++ {
